@@ -127,6 +127,12 @@ def shape(e, roles=None, depth=20):
                 return "\u03bb(p1)"  # a reference conversion used as a function value: the identity on the value
             lam = lambda_shape(getattr(e, "owner", None), e.fn, False, depth) if e.c.get("fn_local") else None
             return lam if lam is not None else "fn:%s" % nice(e.fn)
+        if e.int is not None and e.c.get("uneval") and e.c.get("promoted") is None and getattr(e, "owner", None) is not None:
+            cb = e.owner.facts.body(e.c["uneval"], required=False)
+            if cb is not None and cb.kind.startswith("Const"):
+                init = _plain_lambda(cb)
+                if init is not None and "size_of<" in init:
+                    return init  # a named constant for a layout-dependent expression prints as that expression
         if e.int is not None:
             bits = {"u8": 8, "u16": 16, "u32": 32, "u64": 64, "usize": 64}.get(e.ty)
             if bits and e.int == (1 << bits) - 1 and bits >= 16:
@@ -352,6 +358,11 @@ def const_value_shape(owner, c):
     if k is None:
         return None
     if k.get("int") is not None:
+        cb = facts.body(path, required=False)
+        if cb is not None and cb.kind.startswith("Const"):
+            init = _plain_lambda(cb)
+            if init is not None and "size_of<" in init:
+                return init  # a named constant for a layout-dependent expression prints as that expression
         bits = {"u8": 8, "u16": 16, "u32": 32, "u64": 64, "usize": 64}.get(k.get("ty"))
         if bits and k["int"] == (1 << bits) - 1:
             return "Not(0)"  # the all-ones sentinel, however it is spelt (`!0`, `u32::MAX`, a named constant)
@@ -599,6 +610,46 @@ def _strip_value(e):
     return e
 
 
+def _materialised_test(body, local, truth):
+    """A bool temporary with exactly two definitions, `true` in block A and `false` in block B, where A and B
+    are entered only from the two sides of one switch P (what `matches!`, a `match` yielding bools, or a
+    materialised comparison leave behind): the temporary is true iff P took the edge to A. Returns the
+    Cond of that edge (or of the edge to B when truth is False)."""
+    ds = body.defs.get(local, [])
+    if len(ds) != 2 or body.partial_defs.get(local):
+        return None
+    blocks = {}
+    for bi, si, kind, node in ds:
+        if kind != "assign" or node["rv"]["k"] != "use" or node["rv"]["op"]["k"] != "const":
+            return None
+        v = node["rv"]["op"].get("c", {}).get("int")
+        if v is None:
+            v = node["rv"]["op"].get("c", {}).get("bool")
+        if v in (True, 1, "1", "true"):
+            blocks[True] = bi
+        elif v in (False, 0, "0", "false"):
+            blocks[False] = bi
+        else:
+            return None
+    if set(blocks) != {True, False} or blocks[True] == blocks[False]:
+        return None
+    pa, pb = body.pred[blocks[True]], body.pred[blocks[False]]
+    if len(pa) != 1 or len(pb) != 1 or list(pa)[0] != list(pb)[0]:
+        return None
+    p = list(pa)[0]
+    t = body.blocks[p]["term"]
+    if t["k"] != "switch":
+        return None
+    tgt = blocks[truth]
+    other = t["otherwise"]
+    vals = set(v for v, tb in t["arms"] if tb == tgt)
+    listed = set(v for v, _ in t["arms"])
+    discr = body.expr_of_operand(t["discr"])
+    if tgt == other:
+        return Cond(body, p, discr, listed - vals, True, t["dty"])
+    return Cond(body, p, discr, vals, False, t["dty"])
+
+
 def facts_of_cond(c, roles=None):
     """Turn a Cond into atomic Facts (comparison facts, boolean call facts, variant facts)."""
     res = []
@@ -607,6 +658,10 @@ def facts_of_cond(c, roles=None):
     if isinstance(e, Un) and e.op == "Not" and tr is not None:
         e = _strip_value(e.x)
         tr = not tr
+    if isinstance(e, Var) and tr is not None and c.body is not None:
+        src = _materialised_test(c.body, e.local, tr)
+        if src is not None:
+            res.extend(facts_of_cond(src, roles))  # `let t = matches!(x, ..)` / `let t = a < b`: the test behind the bool
     if isinstance(e, Bin) and e.op in NEGATE and tr is not None:
         op = e.op if tr else NEGATE[e.op]
         l, r = e.l, e.r
@@ -683,6 +738,20 @@ def _expanded_defs(body, local, depth):
             x = pl["l"]
             if not pl["p"] and x not in body.var_names and x > body.arg_count and len(body.defs.get(x, [])) > 1 and not body.partial_defs.get(x):
                 res.extend(_expanded_defs(body, x, depth - 1))
+                continue
+        if depth > 0 and kind == "call" and (node.get("resolved") or node.get("callee") or "").endswith("Option::<core::option::Option<T>>::flatten") and len(node["args"]) == 1 \
+                and node["args"][0].get("k") in ("move", "copy") and not node["args"][0]["place"]["p"]:
+            # `_0 = flatten(_t)` after `_t = Some(y)` / `_t = None` (what `c.then(|| y).flatten()` leaves once the
+            # closure is in place): the definitions are y and None
+            x = node["args"][0]["place"]["l"]
+            inner = body.defs.get(x, [])
+            if x not in body.var_names and x > body.arg_count and len(inner) > 1 and not body.partial_defs.get(x) and all(
+                    k2 == "assign" and n2["rv"].get("k") == "agg" and n2["rv"].get("adt") == "core::option::Option" for _, _, k2, n2 in inner):
+                for b2, s2, k2, n2 in inner:
+                    if n2["rv"].get("variant") == "Some":
+                        res.append((b2, s2, "assign", {"k": "assign", "place": n2["place"], "rv": {"k": "use", "op": n2["rv"]["ops"][0]}, "span": n2.get("span")}))
+                    else:
+                        res.append((b2, s2, k2, n2))
                 continue
         res.append(d)
     return res
